@@ -34,6 +34,9 @@ pub enum Mode {
     Requests,
     /// `execute(serve)`: a stream of futures, spawned as they come
     Execute,
+    /// the channel's own `Stream` of `TrackedRequest`s and `Sink` of responses, with an `Abortable`
+    /// built by the application from the request's abort registration (third documented way)
+    Raw,
 }
 
 #[derive(Clone, Debug)]
@@ -144,7 +147,11 @@ impl Cfg {
     pub fn random(seed: u64) -> Cfg {
         let mut r = Rng::new(seed ^ 0x5E7E);
         let mut c = Cfg::base(seed);
-        c.mode = if r.chance(1, 4) { Mode::Execute } else { Mode::Requests };
+        c.mode = match r.below(8) {
+            0 | 1 => Mode::Execute,
+            2 => Mode::Raw,
+            _ => Mode::Requests,
+        };
         c.model = if r.chance(1, 2) { Model::Coupled } else { Model::Independent };
         c.cap = *r.pick(&[1, 1, 2, 3, 8]);
         c.limit = *r.pick(&[None, None, Some(0), Some(1), Some(1), Some(2), Some(3), Some(8)]);
@@ -272,8 +279,11 @@ enum Srv {
     Plain(Pin<Box<Requests<Base>>>),
     Limited(Pin<Box<Requests<MaxRequests<Base>>>>),
     Exec(Pin<Box<dyn Stream<Item = HFut>>>),
+    RawPlain(Pin<Box<Base>>),
+    RawLimited(Pin<Box<MaxRequests<Base>>>),
 }
 enum Polled {
+    Tracked(tarpc::server::TrackedRequest<String>),
     Pending,
     End,
     Err(String),
@@ -307,13 +317,76 @@ impl Srv {
                 Poll::Ready(None) => Polled::End,
                 Poll::Ready(Some(f)) => Polled::Fut(f),
             },
+            Srv::RawPlain(_) | Srv::RawLimited(_) => unreachable!("raw channels are driven by raw_poll"),
         }
+    }
+    /// The application's side of the raw usage: write queued responses (readiness first), flush,
+    /// then read the next tracked request.
+    fn raw_poll(&mut self, cx: &mut Context<'_>, outbox: &Rc<RefCell<std::collections::VecDeque<Response<String>>>>) -> Polled {
+        fn name(e: &ChannelError<TErr>) -> String {
+            match e {
+                ChannelError::Read(_) => "Read",
+                ChannelError::Ready(_) => "Ready",
+                ChannelError::Write(_) => "Write",
+                ChannelError::Flush(_) => "Flush",
+                ChannelError::Close(_) => "Close",
+            }
+            .into()
+        }
+        macro_rules! go {
+            ($ch:expr) => {{
+                let ch = $ch;
+                loop {
+                    if outbox.borrow().is_empty() {
+                        break;
+                    }
+                    match ch.as_mut().poll_ready(cx) {
+                        Poll::Ready(Ok(())) => {
+                            let r = outbox.borrow_mut().pop_front().unwrap();
+                            if let Err(e) = ch.as_mut().start_send(r) {
+                                return Polled::Err(name(&e));
+                            }
+                        }
+                        Poll::Ready(Err(e)) => return Polled::Err(name(&e)),
+                        Poll::Pending => break,
+                    }
+                }
+                // a diligent application: whatever was written (by it, or by the limiter inside
+                // poll_next) is flushed before it goes idle or treats the channel as finished
+                match ch.as_mut().poll_next(cx) {
+                    r @ (Poll::Pending | Poll::Ready(None)) => {
+                        let flushed = match ch.as_mut().poll_flush(cx) {
+                            Poll::Ready(Err(e)) => return Polled::Err(name(&e)),
+                            Poll::Ready(Ok(())) => true,
+                            Poll::Pending => false,
+                        };
+                        if r.is_ready() && flushed && outbox.borrow().is_empty() {
+                            Polled::End
+                        } else {
+                            Polled::Pending
+                        }
+                    }
+                    Poll::Ready(Some(Err(e))) => Polled::Err(name(&e)),
+                    Poll::Ready(Some(Ok(t))) => Polled::Tracked(t),
+                }
+            }};
+        }
+        match self {
+            Srv::RawPlain(c) => go!(c),
+            Srv::RawLimited(c) => go!(c),
+            _ => unreachable!(),
+        }
+    }
+    fn is_raw(&self) -> bool {
+        matches!(self, Srv::RawPlain(_) | Srv::RawLimited(_))
     }
     fn reported(&self) -> Option<usize> {
         match self {
             Srv::Plain(r) => Some(r.channel().in_flight_requests()),
             Srv::Limited(r) => Some(r.channel().in_flight_requests()),
             Srv::Exec(_) => None,
+            Srv::RawPlain(c) => Some(c.in_flight_requests()),
+            Srv::RawLimited(c) => Some(c.in_flight_requests()),
         }
     }
     fn lens(&self) -> Option<(usize, usize)> {
@@ -327,6 +400,14 @@ impl Srv {
                 Some((l.entries, l.timers))
             }
             Srv::Exec(_) => None,
+            Srv::RawPlain(c) => {
+                let l = c.verif_in_flight();
+                Some((l.entries, l.timers))
+            }
+            Srv::RawLimited(c) => {
+                let l = c.get_ref().verif_in_flight();
+                Some((l.entries, l.timers))
+            }
         }
     }
 }
@@ -433,7 +514,10 @@ async fn run_inner(cfg: &Cfg, out: &mut Outcome) {
         (Mode::Execute, Some(l)) => Srv::Exec(Box::pin(
             base.max_concurrent_requests(l).execute(serve_fn.clone()).map(|f| Box::pin(f) as HFut),
         )),
+        (Mode::Raw, None) => Srv::RawPlain(Box::pin(base)),
+        (Mode::Raw, Some(l)) => Srv::RawLimited(Box::pin(base.max_concurrent_requests(l))),
     });
+    let outbox: Rc<RefCell<std::collections::VecDeque<Response<String>>>> = Rc::new(RefCell::new(Default::default()));
     let sflag = flag();
     let mut htasks: Vec<HTask> = vec![];
     let mut held: Vec<(InFlightRequest<String, String>, usize)> = vec![];
@@ -488,7 +572,7 @@ async fn run_inner(cfg: &Cfg, out: &mut Outcome) {
                 if h.flag.is_woken() {
                     acts.push((1, SAct::PollH(i)));
                 }
-                if (rng.below(1000) as u64) < cfg.droph_pct * 10 / 4 && cfg.script.is_empty() && h.seq.is_some() {
+                if (rng.below(1000) as u64) < cfg.droph_pct * 10 / 4 && cfg.script.is_empty() && h.seq.is_some() && cfg.mode != Mode::Raw {
                     acts.push((4, SAct::DropH(i)));
                 }
             }
@@ -663,7 +747,9 @@ async fn run_inner(cfg: &Cfg, out: &mut Outcome) {
                     sh.borrow_mut().ev.push(Ev::PollCall);
                     let p = {
                         let s = srv.as_mut().unwrap();
-                        catch_unwind(AssertUnwindSafe(|| match poll_unconstrained(&mut Context::from_waker(&w), |cx| Poll::Ready(s.poll(cx))) {
+                        let raw = s.is_raw();
+                        let ob = outbox.clone();
+                        catch_unwind(AssertUnwindSafe(|| match poll_unconstrained(&mut Context::from_waker(&w), |cx| Poll::Ready(if raw { s.raw_poll(cx, &ob) } else { s.poll(cx) })) {
                             Poll::Ready(x) => x,
                             Poll::Pending => Polled::Pending,
                         }))
@@ -708,6 +794,28 @@ async fn run_inner(cfg: &Cfg, out: &mut Outcome) {
                             srv = None;
                             sh.borrow_mut().ev.push(Ev::ChannelDropped { step });
                             break;
+                        }
+                        Ok(Polled::Tracked(t)) => {
+                            // the application's part of the raw usage: an Abortable around the handler,
+                            // the response queued for the channel's sink when it finishes
+                            let tarpc::server::TrackedRequest { request, abort_registration, span: _, response_guard } = t;
+                            let id = request.id;
+                            let seq: usize = request.message.trim_start_matches('q').parse().unwrap_or(usize::MAX);
+                            let v = vms();
+                            sh.borrow_mut().ev.push(Ev::Yield { seq, id, v, step });
+                            let sf = serve_fn.clone();
+                            let ob = outbox.clone();
+                            let fl = sflag.clone();
+                            let fut: HFut = Box::pin(async move {
+                                use tarpc::server::Serve;
+                                let _guard = response_guard; // inert in this mode
+                                let r = futures::future::Abortable::new(sf.serve(request.context, request.message), abort_registration).await;
+                                if let Ok(message) = r {
+                                    ob.borrow_mut().push_back(Response { request_id: id, message });
+                                    futures::task::ArcWake::wake_by_ref(&fl);
+                                }
+                            });
+                            htasks.push(HTask { fut: Some(fut), flag: flag(), seq: Some(seq), polled: false });
                         }
                         Ok(Polled::Fut(f)) => {
                             htasks.push(HTask { fut: Some(f), flag: flag(), seq: None, polled: false });
@@ -1111,7 +1219,7 @@ fn gen_peer_msg(
         return PeerMsg::Cancel { id };
     }
     // (execute() hides the hand-over, so a duplicate could not be told from a fresh request there)
-    if k < cfg.cancel_pct + cfg.dup_pct && !certain.is_empty() && cfg.mode == Mode::Requests {
+    if k < cfg.cancel_pct + cfg.dup_pct && !certain.is_empty() && cfg.mode != Mode::Execute {
         // the duplicate may carry any deadline (it must be ignored, deadline included)
         return PeerMsg::Req { id: *rng.pick(&certain), d: *rng.pick(&[SDl::Ms(10_000), SDl::Ms(20), SDl::Ms(3), SDl::Past]) };
     }
@@ -1751,10 +1859,10 @@ fn oracles(
         };
         if let Some(exp) = expect {
             match (&stream_err, cfg.mode) {
-                (Some(v), Mode::Requests) if v == exp => {}
-                (Some(v), Mode::Requests) if v == "panic" => {}
-                (Some(v), Mode::Requests) => out.viols.push(Viol::new("C09", "server-wrong-variant", format!("transport {} failed; the request stream reported ChannelError::{v}, expected {exp}", op.name()))),
-                (None, Mode::Requests) => out.viols.push(Viol::new("C09", "server-fault-not-reported", format!("transport {} failed but the request stream never reported an error (ended={ended})", op.name()))),
+                (Some(v), Mode::Requests | Mode::Raw) if v == exp => {}
+                (Some(v), Mode::Requests | Mode::Raw) if v == "panic" => {}
+                (Some(v), Mode::Requests | Mode::Raw) => out.viols.push(Viol::new("C09", "server-wrong-variant", format!("transport {} failed; the request stream reported ChannelError::{v}, expected {exp}", op.name()))),
+                (None, Mode::Requests | Mode::Raw) => out.viols.push(Viol::new("C09", "server-fault-not-reported", format!("transport {} failed but the request stream never reported an error (ended={ended})", op.name()))),
                 (_, Mode::Execute) => {
                     if !ended {
                         out.viols.push(Viol::new("C09", "execute-keeps-running", format!("transport {} failed but the execute() stream did not stop", op.name())));
@@ -1762,7 +1870,7 @@ fn oracles(
                 }
             }
         }
-        if survivors > 0 {
+        if survivors > 0 && cfg.mode != Mode::Raw {
             out.viols.push(Viol::new("C09", "handlers-outlive-channel", format!("{survivors} handler futures are still running after the failed channel was dropped")));
         }
     } else if survivors > 0 && cfg.mode == Mode::Requests {
